@@ -270,7 +270,9 @@ def unreduced_cross_entropy_loss(targets: jnp.ndarray,
   if is_sparse_targets:
     # If targets is sparse, convert to one hot representation.
     num_classes = preds.shape[-1]
-    targets = jax.nn.one_hot(targets, num_classes)
+    # one_hot compares against arange(num_classes) in the dtype of its input:
+    # widen narrow integer targets so that more than 256 classes do not wrap.
+    targets = jax.nn.one_hot(jnp.asarray(targets, jnp.int32), num_classes)
   return -jnp.sum(targets * log_preds, axis=-1)
 
 
@@ -939,7 +941,9 @@ class PerDomainMetric(Metric):
   def evaluate_example(self, example: SingleExample,
                        prediction: SinglePrediction) -> Stat:
     domain_mask = jax.nn.one_hot(
-        example[self.domain_id_key], self.num_domains, dtype=jnp.bool_)
+        jnp.asarray(example[self.domain_id_key], jnp.int32),
+        self.num_domains,
+        dtype=jnp.bool_)
 
     def where(a, b):
       return apply_mask(domain_mask, jnp.expand_dims(a, 0),
